@@ -10,7 +10,9 @@ sequential path.
           sorted by key, identical for every completion order, merge_fn never called.
 (T1)      world W2 with every ordered selection of 2-3 of its graphs (+ a duplicate-graph list), texts,
           t1 cap settings, workers 2..4, LRU capacity {1, 512}, cache fresh / pre-warmed, every completion
-          order of the per-graph tasks.  Oracle: graph_deltas and counters of the sequential stage.
+          order of the per-graph tasks; + wide fan-outs (up to 12 distinct graphs quick / 23 thorough, so task
+          indices and graph ids have two decimal digits; > 5 tasks: the three extreme feasible completion orders).
+          Oracle: graph_deltas and counters of the sequential stage.
 (T2)      memories = every ordered selection of <= 5 episodes of a 5-episode alphabet, tiers = every
           non-empty ordered subset of the three tiers, k in {1,2,64}, clusters_top_m in {1,3}, workers 2..4,
           every completion order of the per-shard tasks.  Oracle: items / order / scores / residual deltas /
@@ -409,10 +411,45 @@ def _t1_cfg(over_name: str, cap: int, w: int, parallel: bool):
     return _CFG_CACHE[key]
 
 
+_FRUIT = ["apple", "pear", "fig", "plum", "quince"]
+
+
+def _t1_extra_graphs(state, graphs) -> None:
+    """Wide fan-outs: every listed graph beyond g1..g3 of the world ("g4", "g5", ... "g10", ...) is created with its own
+    node ids (two nodes, one edge), so the deltas of different graphs are distinguishable and the position of every task
+    result in the merged list is observable."""
+    for gid in graphs:
+        if gid in ("g1", "g2", "g3") or not (isinstance(gid, str) and gid[:1] == "g" and gid[1:].isdigit()):
+            continue
+        k = int(gid[1:])
+        W._graph(state["store"], gid,
+                 [("x%d_1" % k, _FRUIT[k % 5]), ("x%d_2" % k, _FRUIT[(k + 2) % 5])],
+                 [("y%d" % k, "x%d_1" % k, "x%d_2" % k, 0.5 + 0.25 * (k % 2), "supports")])
+
+
+_T1_WIDE_TXT = {True: "4,5,9,10,11,12,13,21,23", False: "5,11,12"}
+WIDE_N = 5  # beyond this many tasks the completion orders are the extreme feasible ones, not all of them
+
+
+def _extreme_orders(n: int, w: int) -> List[Tuple[int, ...]]:
+    """Deterministic family for wide fan-outs: of the running tasks always the lowest finishes next / always the highest /
+    alternately highest and lowest.  All are feasible for a FIFO pool of w threads (built from po.running_set)."""
+    out: List[Tuple[int, ...]] = []
+    for pick in ("low", "high", "alt"):
+        done: List[int] = []
+        while len(done) < n:
+            r = po.running_set(n, w, done)
+            done.append(r[0] if pick == "low" or (pick == "alt" and len(done) % 2) else r[-1])
+        if tuple(done) not in out:
+            out.append(tuple(done))
+    return out
+
+
 def _t1_exec(case, order):
     """order: None -> sequential configuration; 'census' -> parallel, first feasible order; tuple -> that order."""
     W.reset_globals()
     state = W.make_world("W2")
+    _t1_extra_graphs(state, case["graphs"])
     state["active_graphs"] = list(case["graphs"])
     cfg_seq = _t1_cfg(case["over"], case["cap"], case["w"], False)
     if case["warm"]:
@@ -482,7 +519,7 @@ def _t1_group(case, st: Optional[Stats]) -> List[Tuple[str, str, dict]]:
         return [(sig, what, dict(case, order=None)) for sig, what in found]
     n, w = gate.calls[0]["n"], gate.calls[0]["w"]
     per_order = []
-    for order in po.feasible_orders(n, w):
+    for order in (po.feasible_orders(n, w) if n <= WIDE_N else _extreme_orders(n, w)):
         par, g = _t1_exec(case, order)
         found = _t1_compare(case, seq, par)
         per_order.append((order, found))
@@ -495,6 +532,8 @@ def _t1_group(case, st: Optional[Stats]) -> List[Tuple[str, str, dict]]:
                                      (par[1].metrics.get("cache_hits"), par[1].metrics.get("propagations")) if par[0] == "ok" else None))
             if list(order) != sorted(order):
                 st.add("nontrivial")
+            if n > WIDE_N:
+                st.add("t1_wide_executions")
     bad = [o for o, f in per_order if f]
     for order, found in per_order:
         for sig, what in found:
@@ -526,6 +565,17 @@ def t1_units(thorough: bool, seed: int):
                         for warm in (False, True):
                             units.append({"kind": "t1", "graphs": graphs, "text": text, "over": over, "w": w,
                                           "cap": cap, "warm": warm, "warm_text": text})
+    # wide fan-outs: 4..N distinct active graphs, so that task indices and graph ids reach two decimal digits (the merge
+    # must follow the numeric submit index: 2 < 10, although "10" < "2" and "g10" < "g2" as strings)
+    widths = (4, 5, 9, 10, 11, 12, 13, 21, 23) if thorough else (5, 11, 12)
+    for nw in widths:
+        asc = ["g%d" % i for i in range(1, nw + 1)]
+        for graphs in ([asc, asc[::-1], asc[1::2] + asc[0::2]] if thorough else [asc, asc[::-1]]):
+            for text in (("apple pear fig plum quince", "apple") if thorough else ("apple pear fig plum quince",)):
+                for w in ((2, 3, 4, 8, 16) if thorough else (2, 4, 8)):
+                    for cap in ((1, 512) if thorough else (512,)):
+                        units.append({"kind": "t1", "graphs": graphs, "text": text, "over": "default", "w": w,
+                                      "cap": cap, "warm": False, "warm_text": text})
     if thorough:
         # cache pre-warmed by a different text (other seeds -> other keys; evictions at capacity 1)
         for graphs in lists:
@@ -1201,7 +1251,7 @@ def run(run: Run) -> None:
                 run.samples.append(dict(u))
     run.rule = ("every feasible completion order (DFS over 'which running task finishes next' in a FIFO pool of min(w,n) threads, "
                 "enforced on the real ThreadPoolExecutor by gated thunks) x (helper) n<=%d tasks, max_workers 0..8, every failing subset, "
-                "%d key shapes; (T1) %d groups = graph lists x texts x cap settings x workers 2..4 x LRU capacity {1,512} x fresh/pre-warmed; "
+                "%d key shapes; (T1) %d groups = graph lists x texts x cap settings x workers 2..4 x LRU capacity {1,512} x fresh/pre-warmed, + wide fan-outs of N distinct active graphs g1..gN (quick N in 5,11,12, ascending / descending listing, workers 2,4,8; thorough N in 4,5,9,10,11,12,13,21,23, also interleaved listing, workers 2,3,4,8,16) where task indices and graph ids reach two decimal digits -- for more than 5 tasks NOT every completion order but the three extreme feasible ones (of the running tasks always the lowest / always the highest / alternately highest and lowest finishes next); "
                 "(T2) %d groups = ordered episode selections (<=%d of %d) x tier lists x k {1,2,64} x clusters_top_m {1,3} x workers 2..4 "
                 "(+ owner_scope=agent leg, owner x cluster leg, two-queries leg) + index-history leg (%d groups): ONE index object "
                 "= add P1, query, then clear()+add P2 (every ordered selection of 2-3 of %d episodes for P1 and P2, so also equal sizes) "
